@@ -340,4 +340,364 @@ theorem SameVals.wf {s s' : State τ} (h : SameVals s s') (w : WF s) : WF s' := 
   · rw [h.log]; exact w.log_nodup
   · rw [h.log, h.rndPos, h.isRnd]; exact w.rnd_count
 
+/-! ## `Ext s s' l`: `s'` is `s` after the operators `l` have been evaluated -/
+
+/-- operator `o` (unevaluated) became `o'` (evaluated) -/
+structure OpStored (o o' : OpInfo τ) : Prop where
+  kind : o'.kind = o.kind
+  args : o'.args = o.args
+  sizes : o'.rets.map (·.size) = o.rets.map (·.size)
+  grads : o'.rets.map (·.grad) = o.rets.map (·.grad)
+  nonparam : o.kind.isParam = false
+  nonempty : o.rets ≠ []
+  before : ∀ n ∈ o.rets, n.value = none
+  after : ∀ n ∈ o'.rets, n.value.isSome = true
+
+/-- what every operation on a graph preserves of an operator -/
+structure OpGrow (o o' : OpInfo τ) : Prop where
+  kind : o'.kind = o.kind
+  args : o'.args = o.args
+  sizes : o'.rets.map (·.size) = o.rets.map (·.size)
+  grads : o'.rets.map (·.grad) = o.rets.map (·.grad)
+  mono : ∀ (i : Nat) (n : NodeInfo τ) (v : τ), o.rets[i]? = some n → n.value = some v → ∃ n', o'.rets[i]? = some n' ∧ n'.value = some v
+
+theorem OpGrow.refl (o : OpInfo τ) : OpGrow o o := ⟨rfl, rfl, rfl, rfl, fun _ n _ h hv => ⟨n, h, hv⟩⟩
+
+theorem OpStored.grow {o o' : OpInfo τ} (h : OpStored o o') : OpGrow o o' :=
+  ⟨h.kind, h.args, h.sizes, h.grads, fun i n v hn hv => by
+    have := h.before n (List.mem_of_getElem? hn); simp [this] at hv⟩
+
+theorem OpGrow.length {o o' : OpInfo τ} (h : OpGrow o o') : o'.rets.length = o.rets.length := by
+  simpa using congrArg List.length h.sizes
+
+/-- the equation the values of a deterministic operator satisfy right after its evaluation -/
+def LocalEq (s : State τ) (k : Nat) : Prop :=
+  ∀ (o : OpInfo τ) (sem : OpSem τ), s.ops[k]? = some o → o.kind = .op sem →
+    ∃ xs ys, o.args.mapM s.valueOf? = some xs ∧ sem.fwd xs = some ys ∧
+      ∀ (i : Nat) (n : NodeInfo τ), o.rets[i]? = some n → n.value = ys[i]?
+
+structure Ext (s s' : State τ) (l : List Nat) : Prop where
+  params : s'.params = s.params
+  sample : s'.sample = s.sample
+  log : s'.log = s.log ++ l
+  rndPos : s'.rndPos = s.rndPos + l.countP s.isRnd
+  nodup : l.Nodup
+  same : ∀ k, k ∉ l → s'.ops[k]? = s.ops[k]?
+  stored : ∀ k ∈ l, ∃ o o', s.ops[k]? = some o ∧ s'.ops[k]? = some o' ∧ OpStored o o'
+  loc : ∀ k ∈ l, LocalEq s' k
+
+theorem Ext.cases {s s' : State τ} {l : List Nat} (h : Ext s s' l) (k : Nat) :
+    (s.ops[k]? = none ∧ s'.ops[k]? = none) ∨
+    ∃ o o', s.ops[k]? = some o ∧ s'.ops[k]? = some o' ∧ OpGrow o o' := by
+  by_cases hk : k ∈ l
+  · obtain ⟨o, o', h1, h2, h3⟩ := h.stored k hk
+    exact .inr ⟨o, o', h1, h2, h3.grow⟩
+  · have := h.same k hk
+    cases h1 : s.ops[k]? with
+    | none => exact .inl ⟨rfl, by rw [this, h1]⟩
+    | some o => exact .inr ⟨o, o, rfl, by rw [this, h1], OpGrow.refl o⟩
+
+theorem Ext.isRnd {s s' : State τ} {l : List Nat} (h : Ext s s' l) : s'.isRnd = s.isRnd := by
+  funext k
+  unfold State.isRnd
+  rcases h.cases k with ⟨h1, h2⟩ | ⟨o, o', h1, h2, he⟩
+  · simp [h1, h2]
+  · simp [h1, h2, he.kind]
+
+theorem Ext.isParam {s s' : State τ} {l : List Nat} (h : Ext s s' l) : s'.isParam = s.isParam := by
+  funext k
+  unfold State.isParam
+  rcases h.cases k with ⟨h1, h2⟩ | ⟨o, o', h1, h2, he⟩
+  · simp [h1, h2]
+  · simp [h1, h2, he.kind]
+
+theorem Ext.argsOf {s s' : State τ} {l : List Nat} (h : Ext s s' l) : s'.argsOf = s.argsOf := by
+  funext k
+  unfold State.argsOf
+  rcases h.cases k with ⟨h1, h2⟩ | ⟨o, o', h1, h2, he⟩
+  · simp [h1, h2]
+  · simp [h1, h2, he.args]
+
+theorem Ext.validAddr {s s' : State τ} {l : List Nat} (h : Ext s s' l) (a : Addr) :
+    s'.validAddr a = s.validAddr a := by
+  unfold State.validAddr
+  rcases h.cases a.oid with ⟨h1, h2⟩ | ⟨o, o', h1, h2, he⟩
+  · simp [h1, h2]
+  · simp [h1, h2, he.length]
+
+theorem Ext.length {s s' : State τ} {l : List Nat} (h : Ext s s' l) : s'.ops.length = s.ops.length := by
+  apply Nat.le_antisymm
+  · apply Nat.le_of_not_lt; intro hlt
+    rcases h.cases s.ops.length with ⟨h1, h2⟩ | ⟨o, o', h1, h2, he⟩
+    · rw [List.getElem?_eq_none_iff] at h2; omega
+    · have := (List.getElem?_eq_some_iff.1 h1).1; omega
+  · apply Nat.le_of_not_lt; intro hlt
+    rcases h.cases s'.ops.length with ⟨h1, h2⟩ | ⟨o, o', h1, h2, he⟩
+    · rw [List.getElem?_eq_none_iff] at h1; omega
+    · have := (List.getElem?_eq_some_iff.1 h2).1; omega
+
+theorem Ext.node_mono {s s' : State τ} {l : List Nat} (h : Ext s s' l) {a : Addr} {n : NodeInfo τ} {v : τ}
+    (hn : s.node? a = some n) (hv : n.value = some v) :
+    ∃ n', s'.node? a = some n' ∧ n'.value = some v := by
+  unfold State.node? at hn ⊢
+  rcases h.cases a.oid with ⟨h1, h2⟩ | ⟨o, o', h1, h2, he⟩
+  · simp [h1] at hn
+  · simp only [h1, h2] at hn ⊢
+    exact he.mono a.vid n v hn hv
+
+theorem Ext.valueOf_mono {s s' : State τ} {l : List Nat} (h : Ext s s' l) {a : Addr} {v : τ}
+    (hv : s.valueOf? a = some v) : s'.valueOf? a = some v := by
+  unfold State.valueOf? at hv ⊢
+  rcases h.cases a.oid with ⟨h1, h2⟩ | ⟨o, o', h1, h2, he⟩
+  · simp [h1] at hv
+  · simp only [h1, h2, he.kind, h.params] at hv ⊢
+    cases hk : o.kind with
+    | param p => simpa [hk] using hv
+    | rnd =>
+      simp only [hk] at hv ⊢
+      cases h3 : o.rets[a.vid]? with
+      | none => simp [h3] at hv
+      | some n =>
+        simp only [h3] at hv
+        obtain ⟨n', h4, h5⟩ := he.mono a.vid n v h3 hv
+        simp [h4, h5]
+    | op sem =>
+      simp only [hk] at hv ⊢
+      cases h3 : o.rets[a.vid]? with
+      | none => simp [h3] at hv
+      | some n =>
+        simp only [h3] at hv
+        obtain ⟨n', h4, h5⟩ := he.mono a.vid n v h3 hv
+        simp [h4, h5]
+
+theorem mapM_mono {α β} {f g : α → Option β} {l : List α} {ys : List β}
+    (hfg : ∀ a ∈ l, ∀ b, f a = some b → g a = some b) (h : l.mapM f = some ys) : l.mapM g = some ys := by
+  induction l generalizing ys with
+  | nil => simpa using h
+  | cons a rest ih =>
+    simp only [List.mapM_cons, Option.bind_eq_bind] at h ⊢
+    cases h1 : f a with
+    | none => simp [h1] at h
+    | some b =>
+      simp only [h1, Option.bind_some] at h
+      cases h2 : rest.mapM f with
+      | none => simp [h2] at h
+      | some bs =>
+        simp only [h2, Option.bind_some] at h
+        rw [hfg a (List.mem_cons_self) b h1, ih (fun a ha => hfg a (List.mem_cons_of_mem _ ha)) h2]
+        simpa using h
+
+theorem Ext.evaluated {s s' : State τ} {l : List Nat} (h : Ext s s' l) (k : Nat) :
+    s'.evaluated k ↔ s.evaluated k ∨ k ∈ l := by
+  unfold State.evaluated
+  by_cases hk : k ∈ l
+  · obtain ⟨o, o', h1, h2, h3⟩ := h.stored k hk
+    simp only [hk, or_true, iff_true, h2, Option.some.injEq, exists_eq_left']
+    have hlen := h3.grow.length
+    cases hr : o'.rets with
+    | nil => rw [hr] at hlen; exact absurd (List.eq_nil_of_length_eq_zero hlen.symm) h3.nonempty
+    | cons n r => exact ⟨n, List.mem_cons_self, h3.after n (hr ▸ List.mem_cons_self)⟩
+  · simp [hk, h.same k hk]
+
+theorem Ext.refl' {s s' : State τ} (hops : s'.ops = s.ops) (hp : s'.params = s.params)
+    (hs : s'.sample = s.sample) (hl : s'.log = s.log) (hr : s'.rndPos = s.rndPos) : Ext s s' [] :=
+  ⟨hp, hs, by simp [hl], by simp [hr], List.nodup_nil, fun k _ => by rw [hops],
+   fun k hk => by simp at hk, fun k hk => by simp at hk⟩
+
+theorem Ext.refl (s : State τ) : Ext s s [] := Ext.refl' rfl rfl rfl rfl rfl
+
+theorem LocalEq.mono {s s' : State τ} {l : List Nat} (h : Ext s s' l) {k : Nat} (hk : k ∉ l)
+    (he : LocalEq s k) : LocalEq s' k := by
+  intro o sem ho hkind
+  rw [h.same k hk] at ho
+  obtain ⟨xs, ys, h1, h2, h3⟩ := he o sem ho hkind
+  exact ⟨xs, ys, mapM_mono (fun a _ b hb => h.valueOf_mono hb) h1, h2, h3⟩
+
+theorem Ext.disjoint {s s1 s2 : State τ} {l1 l2 : List Nat} (h1 : Ext s s1 l1) (h2 : Ext s1 s2 l2)
+    {k : Nat} (hk1 : k ∈ l1) (hk2 : k ∈ l2) : False := by
+  obtain ⟨o, o', _, e2, st⟩ := h1.stored k hk1
+  obtain ⟨p, p', e3, _, st'⟩ := h2.stored k hk2
+  rw [e2] at e3; cases e3
+  cases hr : o'.rets with
+  | nil => exact st'.nonempty hr
+  | cons n r =>
+    have a1 := st.after n (hr ▸ List.mem_cons_self)
+    have a2 := st'.before n (hr ▸ List.mem_cons_self)
+    simp [a2] at a1
+
+theorem Ext.trans {s s1 s2 : State τ} {l1 l2 : List Nat} (h1 : Ext s s1 l1) (h2 : Ext s1 s2 l2) :
+    Ext s s2 (l1 ++ l2) := by
+  have hdis : ∀ k, k ∈ l1 → k ∈ l2 → False := fun k => h1.disjoint h2
+  refine ⟨h2.params.trans h1.params, h2.sample.trans h1.sample, ?_, ?_, ?_, ?_, ?_, ?_⟩
+  · rw [h2.log, h1.log, List.append_assoc]
+  · rw [h2.rndPos, h1.rndPos, h1.isRnd, List.countP_append, Nat.add_assoc]
+  · rw [List.nodup_append]
+    exact ⟨h1.nodup, h2.nodup, fun a ha b hb hab => hdis a ha (hab ▸ hb)⟩
+  · intro k hk
+    simp only [List.mem_append, not_or] at hk
+    rw [h2.same k hk.2, h1.same k hk.1]
+  · intro k hk
+    rcases List.mem_append.1 hk with hk | hk
+    · obtain ⟨o, o', e1, e2, st⟩ := h1.stored k hk
+      exact ⟨o, o', e1, by rw [h2.same k (fun h => hdis k hk h), e2], st⟩
+    · obtain ⟨o, o', e1, e2, st⟩ := h2.stored k hk
+      exact ⟨o, o', by rw [← h1.same k (fun h => hdis k h hk), e1], e2, st⟩
+  · intro k hk
+    rcases List.mem_append.1 hk with hk | hk
+    · exact LocalEq.mono h2 (fun h => hdis k hk h) (h1.loc k hk)
+    · exact h2.loc k hk
+
+theorem Ext.wf {s s' : State τ} {l : List Nat} (h : Ext s s' l) (w : WF s) : WF s' := by
+  have back : ∀ {k : Nat} {o' : OpInfo τ}, s'.ops[k]? = some o' →
+      ∃ o, s.ops[k]? = some o ∧ OpGrow o o' := by
+    intro k o' ho'
+    rcases h.cases k with ⟨h1, h2⟩ | ⟨o, o2, h1, h2, he⟩
+    · simp [h2] at ho'
+    · rw [h2] at ho'; cases ho'; exact ⟨o, h1, he⟩
+  constructor
+  · intro k o' ho' a ha
+    obtain ⟨o, ho, he⟩ := back ho'
+    rw [he.args] at ha
+    rw [h.validAddr]
+    exact w.args_lt k o ho a ha
+  · intro k o' ho'
+    obtain ⟨o, ho, he⟩ := back ho'
+    rw [he.kind, he.args, he.length]; exact w.kind_ok k o ho
+  · intro k o' ho'
+    by_cases hk : k ∈ l
+    · obtain ⟨o, o2, e1, e2, st⟩ := h.stored k hk
+      rw [e2] at ho'; cases ho'
+      exact .inr st.after
+    · rw [h.same k hk] at ho'; exact w.all_or_none k o' ho'
+  · intro k o' ho' hp
+    by_cases hk : k ∈ l
+    · obtain ⟨o, o2, e1, e2, st⟩ := h.stored k hk
+      rw [e2] at ho'; cases ho'
+      rw [st.kind, st.nonparam] at hp; cases hp
+    · rw [h.same k hk] at ho'; exact w.param_none k o' ho' hp
+  · intro k; rw [h.log, h.evaluated, List.mem_append, w.log_iff]
+  · rw [h.log, List.nodup_append]
+    refine ⟨w.log_nodup, h.nodup, fun a ha b hb hab => ?_⟩
+    subst hab
+    obtain ⟨o, o2, e1, e2, st⟩ := h.stored a hb
+    obtain ⟨o3, e3, n, hn, hv⟩ := (w.log_iff a).1 ha
+    rw [e1] at e3; cases e3
+    simp [st.before n hn] at hv
+  · rw [h.log, h.rndPos, h.isRnd, List.countP_append, w.rnd_count]
+
+/-! ### the evaluation step -/
+
+def storeRets (rets : List (NodeInfo τ)) (vals : List τ) : List (NodeInfo τ) :=
+  rets.zipIdx.map fun (n, i) =>
+    match vals[i]? with
+    | some v => { n with value := some v }
+    | none => n
+
+theorem storeRets_getElem? (rets : List (NodeInfo τ)) (vals : List τ) (i : Nat) :
+    (storeRets rets vals)[i]? = (rets[i]?).map fun n =>
+      match vals[i]? with
+      | some v => { n with value := some v }
+      | none => n := by
+  simp [storeRets, List.getElem?_zipIdx]
+  cases rets[i]? <;> simp
+
+theorem storeRets_map_size (rets : List (NodeInfo τ)) (vals : List τ) :
+    (storeRets rets vals).map (·.size) = rets.map (·.size) := by
+  apply List.ext_getElem?
+  intro i
+  simp only [List.getElem?_map, storeRets_getElem?]
+  cases rets[i]? <;> simp
+  cases vals[i]? <;> rfl
+
+theorem storeRets_map_grad (rets : List (NodeInfo τ)) (vals : List τ) :
+    (storeRets rets vals).map (·.grad) = rets.map (·.grad) := by
+  apply List.ext_getElem?
+  intro i
+  simp only [List.getElem?_map, storeRets_getElem?]
+  cases rets[i]? <;> simp
+  cases vals[i]? <;> rfl
+
+theorem storeRets_value (rets : List (NodeInfo τ)) (vals : List τ) (hlen : rets.length ≤ vals.length)
+    (i : Nat) (n : NodeInfo τ) (h : (storeRets rets vals)[i]? = some n) : n.value = vals[i]? := by
+  rw [storeRets_getElem?] at h
+  cases hr : rets[i]? with
+  | none => simp [hr] at h
+  | some m =>
+    have hi : i < vals.length := Nat.lt_of_lt_of_le (List.getElem?_eq_some_iff.1 hr).1 hlen
+    simp only [hr, Option.map_some, List.getElem?_eq_getElem hi, Option.some.injEq] at h
+    rw [← h, List.getElem?_eq_getElem hi]
+
+theorem storeValues_of_some {s : State τ} {k : Nat} {o : OpInfo τ} (vals : List τ)
+    (h : s.ops[k]? = some o) :
+    s.storeValues k vals = { s with ops := s.ops.set k { o with rets := storeRets o.rets vals } } := by
+  unfold State.storeValues
+  rw [h]
+  rfl
+
+theorem State.valueOf?_congr {s s' : State τ} {a : Addr} (h : s'.ops[a.oid]? = s.ops[a.oid]?)
+    (hp : s'.params = s.params) : s'.valueOf? a = s.valueOf? a := by
+  unfold State.valueOf?; rw [h, hp]
+
+theorem mapM_congr {α β} {f g : α → Option β} {l : List α} (h : ∀ a ∈ l, f a = g a) :
+    l.mapM f = l.mapM g := by
+  induction l with
+  | nil => rfl
+  | cons a r ih =>
+    simp only [List.mapM_cons]
+    rw [h a List.mem_cons_self, ih (fun a ha => h a (List.mem_cons_of_mem _ ha))]
+
+theorem Ext.step {s1 sA : State τ} {k : Nat} {o : OpInfo τ} {ys : List τ}
+    (ho : s1.ops[k]? = some o) (hops : sA.ops = s1.ops) (hp : sA.params = s1.params)
+    (hs : sA.sample = s1.sample) (hl : sA.log = s1.log ++ [k])
+    (hr : sA.rndPos = s1.rndPos + if o.kind.isRnd then 1 else 0)
+    (hnp : o.kind.isParam = false) (hne : o.rets ≠ []) (hbefore : ∀ n ∈ o.rets, n.value = none)
+    (hlen : o.rets.length ≤ ys.length)
+    (hargs : ∀ b ∈ o.args, b.oid ≠ k)
+    (hloc : ∀ sem, o.kind = .op sem → ∃ xs, o.args.mapM s1.valueOf? = some xs ∧ sem.fwd xs = some ys) :
+    Ext s1 (sA.storeValues k ys) [k] := by
+  have hoA : sA.ops[k]? = some o := by rw [hops]; exact ho
+  have hklt : k < s1.ops.length := (List.getElem?_eq_some_iff.1 ho).1
+  rw [storeValues_of_some ys hoA]
+  have hget : ∀ j, (sA.ops.set k { o with rets := storeRets o.rets ys })[j]? =
+      if j = k then some { o with rets := storeRets o.rets ys } else s1.ops[j]? := by
+    intro j
+    rw [hops, List.getElem?_set]
+    by_cases hj : k = j
+    · subst hj; simp [hklt]
+    · simp [hj, Ne.symm hj]
+  refine ⟨hp, hs, hl, ?_, (by simp), ?_, ?_, ?_⟩
+  · simp only [hr, List.countP_singleton, State.isRnd, ho]
+  · intro j hj
+    simp only [List.mem_singleton] at hj
+    show (sA.ops.set k _)[j]? = _
+    rw [hget, if_neg hj]
+  · intro j hj
+    simp only [List.mem_singleton] at hj; subst hj
+    refine ⟨o, { o with rets := storeRets o.rets ys }, ho, ?_, ?_⟩
+    · show (sA.ops.set j _)[j]? = _
+      rw [hget, if_pos rfl]
+    · refine ⟨rfl, rfl, storeRets_map_size _ _, storeRets_map_grad _ _, hnp, hne, hbefore, ?_⟩
+      intro n hn
+      obtain ⟨i, hi⟩ := List.getElem?_of_mem hn
+      have := storeRets_value o.rets ys hlen i n hi
+      have hi' : i < ys.length := by
+        have := (List.getElem?_eq_some_iff.1 hi).1
+        simp [storeRets] at this; omega
+      rw [this, List.getElem?_eq_getElem hi']; rfl
+  · intro j hj
+    simp only [List.mem_singleton] at hj; subst hj
+    intro o' sem ho' hkind
+    change (sA.ops.set j _)[j]? = _ at ho'
+    rw [hget, if_pos rfl] at ho'
+    cases ho'
+    obtain ⟨xs, hx1, hx2⟩ := hloc sem hkind
+    refine ⟨xs, ys, ?_, hx2, fun i n hi => storeRets_value o.rets ys hlen i n hi⟩
+    rw [← hx1]
+    apply mapM_congr
+    intro b hb
+    apply State.valueOf?_congr
+    · show (sA.ops.set j _)[b.oid]? = _
+      rw [hget, if_neg (hargs b hb)]
+    · exact hp
+
 end Primitiv.Graph
